@@ -27,10 +27,9 @@ Proof.
     apply negb_true_iff in H4. apply Qnot_le_lt. intros X. apply Qle_bool_iff in X. congruence.
 Qed.
 
-(* on the decidable domain the reader model's answer is one of: captions, line-length refusal, flash refusal *)
-Theorem reread_class_on_domain : forall caps, caps_ok_b caps = true -> caps <> [] ->
-  reread_class caps = 0 \/ reread_class caps = 1 \/ reread_class caps = 2.
+(* on the decidable domain the reader model returns captions for the writer model's document *)
+Theorem reread_class_on_domain : forall caps, caps_ok_b caps = true -> caps <> [] -> reread_class caps = 0.
 Proof.
   intros caps H Ne. unfold reread_class.
-  destruct (reread_refusals caps (caps_ok_b_sound caps H) Ne) as [(pcs & ->)|[(m & ->)| ->]]; auto.
+  destruct (reread_store caps (caps_ok_b_sound caps H) Ne) as (pcs & -> & _). reflexivity.
 Qed.
